@@ -30,6 +30,12 @@ def main(tier, seed, replay):
         att, ent = c.get("attempts") or [], c.get("entries") or []
         if c["wrapok"] and att and c["pref"] in ent and att[0] != c["pref"]:
             c["viol"] = (c.get("viol") or []) + ["unwrap: the preferred region %d has an entry in the envelope but region %d was attempted first (attempts %s)" % (c["pref"], att[0], att)]
+        if c["wrapok"] and c.get("genregion", -1) >= 0:
+            # "includes an entry for every region that succeeded": the generating region, and every other configured region whose Encrypt works
+            want = sorted(i for i in c["worder"] if i == c["genregion"] or c["enc"][i])
+            if sorted(ent) != want:
+                c["viol"] = (c.get("viol") or []) + ["wrap: envelope has entries for regions %s, but the regions that succeeded are %s (generated in %d, Encrypt able: %s)"
+                                                     % (sorted(ent), want, c["genregion"], [i for i in c["worder"] if c["enc"][i]])]
         if c["wrapok"] and len(set(att)) != len(att):
             c["viol"] = (c.get("viol") or []) + ["unwrap: a region was attempted twice (%s)" % att]
     viol = [c for c in cases if c.get("viol")]
